@@ -14,7 +14,7 @@ Pv(p) == <<2, 3, 5, 7, 11>>[p]
 UnitAt(p) == << <<Q(3,5), Q(4,5)>>, CJ1, <<Q(5,13), Q(-12,13)>>, C1, <<Q(-4,5), Q(3,5)>> >>[p]
 QuarterAt(p) == << CJ1, C1, CNeg(CJ1), CNeg(C1), CJ1 >>[p]      \* phases of periodic sources: quarter turns (u^n stays small)
 AllKinds == <<"R","G","Z","Y","C","L","LP","LD","SC","DV","DVR","AV1","AVR1","AV2","DI","DIG","AI1","AIG1","AI2","CV","CI",
-              "PVr","PVt","PVs","PIr","PVRr","PV10","AV03","PIs","Ra","La","Ca","Rb","Lb","Cb">>
+              "PVr","PVt","PVs","PIr","PVRr","PV10","AV03","PIs","Ra","La","Ca","Rb","Lb","Cb","AVn","AVm","PVh","PIh">>
 KindNo(k) == CHOOSE i \in 1..Len(AllKinds) : AllKinds[i] = k
 
 CompOf(k, p, n1, n2) ==
@@ -54,6 +54,12 @@ CompOf(k, p, n1, n2) ==
     [] k = "Rb"  -> Comp("resistor", id, n1, n2, [R |-> Q(1, 2)])
     [] k = "Lb"  -> Comp("inductance", id, n1, n2, [L |-> Q(1, 5)])
     [] k = "Cb"  -> Comp("capacitor", id, n1, n2, [C |-> RI(1)])
+    \* sources close to a harmonic of a periodic source: just outside the resolution of the 2nd harmonic of w0 = 2 (4 + 3/2000: off by
+    \* 0.0015 rad/s, i.e. 0.00075 harmonic orders), and just inside the resolution of the 2nd harmonic of w0 = 1/2 (1 - 3/4000)
+    [] k = "AVn" -> Comp("ac_voltage_source", id, n1, n2, [V |-> RI(p + 1), R |-> RI(1), w |-> Q(8003, 2000), u |-> CJ1])
+    [] k = "AVm" -> Comp("ac_voltage_source", id, n1, n2, [V |-> RI(p + 2), R |-> RI(1), w |-> Q(3997, 4000), u |-> C1])
+    [] k = "PVh" -> Comp("periodic_voltage_source", id, n1, n2, [wave |-> "saw", V |-> RI(p + 1), w |-> Q(1,2), u |-> QuarterAt(p), R |-> R0])
+    [] k = "PIh" -> Comp("periodic_current_source", id, n1, n2, [wave |-> "saw", I |-> RI(p), w |-> RI(2), u |-> QuarterAt(p + 1), G |-> R0])
     [] k = "PIr" -> Comp("periodic_current_source", id, n1, n2, [wave |-> "rect", I |-> RI(p), w |-> RI(2), u |-> QuarterAt(p + 1), G |-> R0])
 
 Code(n1, n2, k) == (n1 * MaxN + n2) * 32 + KindNo(k)
